@@ -77,6 +77,7 @@ def main():
 def run(prop, cfg, a, seed, scratch, t0):
     tier = a.tier
     known, fixed = load_known_findings()
+    cfg = dict(cfg, _known_keys=[k['key'] for k in known if k['property'] == prop])
     # ---------------- Verus part
     vdir = os.path.join(scratch, 'verus')
     os.makedirs(vdir)
